@@ -213,6 +213,7 @@ pub fn run_pipeline_case(
     replay: Option<Trace>,
     want: &PipelineWant,
 ) -> CaseOutput {
+    run::reset_hash_seeds(sched.seed);
     let s: &Scenario = scenario;
     let fclass = fault_class(s);
     let policy_on = s.grevm.forbid_delegated_create || s.grevm.reserve_delegated_balance;
@@ -633,6 +634,7 @@ fn summarise_call(c: Option<&run::CallResult>) -> String {
 /// C = execute() with force_sequential; D = fallback_sequential(). All must agree on Ok/Err, failing
 /// index and error, outcomes and bundle.
 pub fn run_relation_case(scenario: &Arc<Scenario>, sched: &SchedSpec, replay: Option<Trace>, want: &PipelineWant) -> CaseOutput {
+    run::reset_hash_seeds(sched.seed);
     let s: &Scenario = scenario;
     let opts = RunOptions { record_trace: want.record_trace, record_log: false, expected_first: None, expected_second: None };
     let mut findings = Vec::new();
